@@ -53,8 +53,9 @@ var props = map[string]propCfg{
 		Bounded: []func(*run){boundedExternals("TestStrings", "TestFmtFragment")},
 		Decided: []string{
 			"printer half: FTypeToGo and its helpers (funcTypeToGo, fSliceToGo, fTupleToGo, fpToGo, recordTypeToGo, fUnionToGo, tArgsToGo, fargs, freturn) equal the documented type mapping go_type (specs/types.spec) for every FType value",
+			"parser half: every (state, FType) pair returned by parseType / parseTypeArrows / parseElemType / parseTermType / parseAtomType is a derivation of the documented grammar TYPE = ELEM ('->' ELEM)*, ELEM = TERM ('*' TERM)*, TERM = '[' ']' TERM | ATOM, ATOM = '(' ')' | '(' TYPE ')' | base name (specs/grammar.spec, Horn clauses over uninterpreted relations): [] binds tighter than *, * tighter than ->, one element is the element itself, several are a tuple / a function type over all of them, parentheses only group, () is unit, base names map to their base types; for token streams of any length and nesting depth",
 		},
-		NotDecided:   []string{"parser half: that parseType and friends build the FType the documented grammar prescribes (precedence of [] over *, -> nesting only through parentheses) is NOT proved: a bounded enumeration (depth 2, 3 syntactic positions) stands in for it, labelled bounded", "forward-declaration placeholders (transTRecurse) and generic user types"},
+		NotDecided:   []string{"named types: WHICH FType a user / external type name denotes (the type factory stored in the scope is a function value: calling it is modelled as returning anything) is not decided - the grammar decides only the tokens a named atom spans (FULLNAME, then '<' TYPE (',' TYPE)* '>' only if the name resolves to a type factory) and the argument list handed to the factory; the bounded enumeration (depth 2, 3 syntactic positions, incl. generic names) covers the rest, labelled bounded", "forward-declaration placeholders (transTRecurse) and generic user types", "that the five syntactic positions all call parseType (read from the call sites; the bounded enumeration exercises three of them)"},
 		BoundedQuick: []func(*run){boundedC15Parser},
 		Scans:        []func(*run){glueLemmas("join")},
 	},
